@@ -13,6 +13,17 @@ import (
 // result only if it is entered again.)  Branches are decided as in
 // ReachableUnder.
 func ReachedUnder(from *ssa.BasicBlock, fs []Fact, avoid map[*ssa.BasicBlock]bool) map[*ssa.BasicBlock]bool {
+	return reachedUnder(from, fs, avoid, false)
+}
+
+// ReachedUnderPhis is ReachedUnder that also decides a comparison one of whose operands is a phi of the block the
+// comparison is in: on the way into that block the phi stands for the value of the edge taken (`err = h(); ...` in one
+// arm of an if/else chain, `if err != nil` after the arms have joined: coming from the arm, err is h's result).
+func ReachedUnderPhis(from *ssa.BasicBlock, fs []Fact, avoid map[*ssa.BasicBlock]bool) map[*ssa.BasicBlock]bool {
+	return reachedUnder(from, fs, avoid, true)
+}
+
+func reachedUnder(from *ssa.BasicBlock, fs []Fact, avoid map[*ssa.BasicBlock]bool, phis bool) map[*ssa.BasicBlock]bool {
 	var eval func(v ssa.Value, pred, b *ssa.BasicBlock, depth int) (val, known bool)
 	eval = func(v ssa.Value, pred, b *ssa.BasicBlock, depth int) (bool, bool) {
 		if depth > 6 {
@@ -43,6 +54,25 @@ func ReachedUnder(from *ssa.BasicBlock, fs []Fact, avoid map[*ssa.BasicBlock]boo
 						return eval(x.Edges[i], nil, nil, depth+1)
 					}
 				}
+			}
+		case *ssa.BinOp:
+			if !phis || pred == nil || b == nil {
+				break
+			}
+			subst := func(o ssa.Value) (ssa.Value, bool) {
+				if ph, ok := o.(*ssa.Phi); ok && ph.Block() == b {
+					for i, p := range b.Preds {
+						if p == pred {
+							return ph.Edges[i], true
+						}
+					}
+				}
+				return o, false
+			}
+			nx, cx := subst(x.X)
+			ny, cy := subst(x.Y)
+			if cx || cy {
+				return eval(&ssa.BinOp{Op: x.Op, X: nx, Y: ny}, nil, nil, depth+1)
 			}
 		}
 		return false, false
